@@ -2,15 +2,25 @@
 //! (offset, stepped, reversed, permuted), realised with ndarray's safe slicing.
 //! `idx` maps each logical position of the view to the linear index of the
 //! parent cell it aliases; every parent cell not in `idx` is a guard cell.
+//! The parent itself sits inside a larger backing allocation with sentinel
+//! padding on both sides, so that a (changed) library that writes a little
+//! outside the parent corrupts the padding - which is checked - instead of the
+//! process heap.
 
 use crate::elem::Elem;
 use crate::scenario::{Scenario, ViewDesc};
-use ndarray::{ArrayD, ArrayViewMutD, Axis, IxDyn, Slice};
+use ndarray::{ArrayD, ArrayViewD, ArrayViewMutD, Axis, IxDyn, Slice};
+
+pub const PAD: usize = 640;
+const SENTINEL_INT: i128 = 77;
 
 pub struct World<T> {
-    pub parent: ArrayD<T>,
+    backing: Vec<T>,
+    pub shape: Vec<usize>,
+    pub n: usize,
     pub idx: ArrayD<usize>,
     pub desc: ViewDesc,
+    sentinel_raw: i64,
 }
 
 fn apply_desc<'a, A>(mut v: ArrayViewMutD<'a, A>, d: &ViewDesc) -> ArrayViewMutD<'a, A> {
@@ -24,20 +34,54 @@ impl<T: Elem> World<T> {
     pub fn build(scn: &Scenario) -> World<T> {
         let n: usize = scn.parent_shape.iter().product();
         assert_eq!(n, scn.data.len(), "scenario data length");
-        let parent = ArrayD::from_shape_vec(IxDyn(&scn.parent_shape), scn.data.iter().map(|&r| T::from_raw(r)).collect())
-            .expect("parent shape");
+        let sentinel_raw = T::TY.raw_of_int(SENTINEL_INT);
+        let mut backing: Vec<T> = Vec::with_capacity(n + 2 * PAD);
+        backing.extend((0..PAD).map(|_| T::from_raw(sentinel_raw)));
+        backing.extend(scn.data.iter().map(|&r| T::from_raw(r)));
+        backing.extend((0..PAD).map(|_| T::from_raw(sentinel_raw)));
         let mut lin = ArrayD::from_shape_vec(IxDyn(&scn.parent_shape), (0..n).collect::<Vec<usize>>()).unwrap();
         let idx = apply_desc(lin.view_mut(), &scn.view).to_owned();
-        // make idx standard layout so that iteration order == logical order and lanes are cheap
+        // standard layout so that iteration order == logical order and lanes are cheap
         let idx = idx.as_standard_layout().to_owned();
-        World { parent, idx, desc: scn.view.clone() }
+        World { backing, shape: scn.parent_shape.clone(), n, idx, desc: scn.view.clone(), sentinel_raw }
+    }
+    pub fn parent_len(&self) -> usize {
+        self.n
+    }
+    pub fn parent_cells(&self) -> &[T] {
+        &self.backing[PAD..PAD + self.n]
+    }
+    pub fn parent_cells_mut(&mut self) -> &mut [T] {
+        let n = self.n;
+        &mut self.backing[PAD..PAD + n]
+    }
+    pub fn parent_view(&self) -> ArrayViewD<'_, T> {
+        ArrayViewD::from_shape(IxDyn(&self.shape), self.parent_cells()).unwrap()
     }
     pub fn view_mut(&mut self) -> ArrayViewMutD<'_, T> {
-        apply_desc(self.parent.view_mut(), &self.desc)
+        let shape = self.shape.clone();
+        let desc = self.desc.clone();
+        let n = self.n;
+        let p = ArrayViewMutD::from_shape(IxDyn(&shape), &mut self.backing[PAD..PAD + n]).unwrap();
+        apply_desc(p, &desc)
     }
+    /// raw values of the parent cells, by linear index
     pub fn snapshot(&self) -> Vec<i64> {
-        // parent is owned standard layout: iteration order is the linear index
-        self.parent.iter().map(|x| x.to_raw()).collect()
+        self.parent_cells().iter().map(|x| x.to_raw()).collect()
+    }
+    /// None when the padding around the parent is untouched
+    pub fn padding_damage(&self) -> Option<String> {
+        for (i, x) in self.backing[..PAD].iter().enumerate() {
+            if x.to_raw() != self.sentinel_raw {
+                return Some(format!("memory {} elements before the parent buffer was overwritten with {:?}", PAD - i, x));
+            }
+        }
+        for (i, x) in self.backing[PAD + self.n..].iter().enumerate() {
+            if x.to_raw() != self.sentinel_raw {
+                return Some(format!("memory {} elements past the end of the parent buffer was overwritten with {:?}", i + 1, x));
+            }
+        }
+        None
     }
     pub fn view_shape(&self) -> Vec<usize> {
         self.idx.shape().to_vec()
